@@ -40,7 +40,8 @@ func verifReconnect(d *Destination) {
 // by some incarnation of the endpoint (duplicates allowed) except at most as many as were counted in the
 // slow_conn / slow_spool drop counters; nothing is counted as conn_down_no_spool.
 func VerifC07Outage() {
-	d := verifNewDest(true, 4, 4)
+	// param "connbuf": size of the connection queue (1: a stalled endpoint fills it with the lines of one phase)
+	d := verifNewDest(true, verifParamInt("connbuf", 4), 4)
 	startUp := verifBool("endpoint-up-at-start")
 	verifEndpointUp(startUp)
 	d.Run()
@@ -59,12 +60,19 @@ func VerifC07Outage() {
 		// the endpoint may stop reading while still connected: the connection writer then blocks inside a
 		// socket write, and the outage surfaces as a write error for the very line it holds
 		stalled := verifBool("endpoint-stops-reading-before-outage")
+		if verifParam("stalled") == "1" { // restrict the scenario: the endpoint always stops reading first
+			verifAssume(stalled)
+		}
 		if stalled {
 			for k := 0; k < verifNumConns(); k++ {
 				verifEndpointStall(k, true)
 			}
 		}
-		verifHandOff(d, &lines, verifChoice("n-connected", 1+maxl))
+		nconn := verifChoice("n-connected", 1+maxl)
+		if verifParam("stalled") == "1" {
+			verifAssume(nconn == maxl) // ... and enough lines follow to fill the connection's queue
+		}
+		verifHandOff(d, &lines, nconn)
 		if verifParam("rotate") == "1" && verifBool("keepsafe-expiry-tick") {
 			for i := 0; i < verifNumTickers(); i++ {
 				if strings.Contains(verifTickerName(i), "keepsafe.go") {
